@@ -395,6 +395,7 @@ class BaseInput:
         if transformers:
             all_columns = self._dataframe
             if need_categorical:
+                all_columns = all_columns.copy()  # do not change the dtypes of the caller-visible dataframe
                 all_columns[need_categorical] = all_columns[need_categorical].astype('category')
 
             all_columns = all_columns.transform(transformers)
